@@ -1,4 +1,5 @@
 import TorrentVerif.Proofs.HasherV1
+import TorrentVerif.Proofs.Listing
 /-
   C01 — v1 piece string is the BEP 3 hashing of exactly the files on disk.
   Property theorems only; helper lemmas live in `Proofs/`.
@@ -37,5 +38,26 @@ theorem v1_single (H1 : Bytes → Bytes) (pl : Nat) (hpl : 0 < pl) (f : Bytes) :
 /-- hypotheses are satisfiable by a non-trivial input: three files, one empty, pieces straddle -/
 example : Impl.hasherV1 false 4 [[1,2,3],[],[4,5,6,7,8,9]] = [[1,2,3,4],[5,6,7,8],[9]] := by
   decide
+
+/-- Every regular file under the content root is listed exactly once, with its exact contents
+    (hence its exact length): for a real directory tree (entry names non-empty, without `/`,
+    distinct among siblings) and whatever order the OS enumerates directories in, the v1
+    listing is a rearrangement of the list of all files of the tree, and no path occurs in it
+    twice. -/
+theorem listing_each_file_once
+    (enum : List (List (Bytes × Bytes)) → List (List (Bytes × Bytes)))
+    (henum : ∀ l, (enum l).Perm l) (pre : Bytes) (t : Node) (h : Spec.WellNamed t) :
+    (Impl.listV1 enum pre t).Perm (Spec.allFiles pre t) ∧
+    ((Impl.listV1 enum pre t).map (·.1)).Nodup :=
+  ⟨Impl.listV1_perm enum henum pre t,
+   ((Impl.listV1_perm enum henum pre t).map _).nodup_iff.mpr (Spec.allFiles_paths_nodup pre t h)⟩
+
+/-- met by: the example tree (unsorted, nested, an empty file, an empty directory) enumerated
+    backwards, rooted at `r` -/
+example : (Impl.listV1 List.reverse [114] Listing.exTree).Perm
+      (Spec.allFiles [114] Listing.exTree) ∧
+    ((Impl.listV1 List.reverse [114] Listing.exTree).map (·.1)).Nodup :=
+  listing_each_file_once List.reverse List.reverse_perm [114] Listing.exTree
+    Listing.exTree_wellNamed
 
 end TorrentVerif.Props.C01
